@@ -28,6 +28,7 @@ inductive Val
   | bool (b : Bool)
   | bytes (b : List UInt8)
   | blist (l : List (List UInt8))
+  | none
   deriving DecidableEq, Repr
 
 /-- `a & b` for Python integers. `~x = -x - 1`. -/
